@@ -269,7 +269,7 @@ void zzExGCD(word d[], word da[], word db[], const word a[], size_t n,
 		{
 			// u <- u - v
 			zzSubW2(u + mv, nu - mv, zzSub2(u, v, mv));
-			if (zzAdd2(da, da1, m) || wwCmp(da, bb, m) >= 0)
+			if (zzAdd2(da, da1, m) || wwCmp(da, bb, m) > 0)
 				zzSub2(da, bb, m);
 			if (zzAdd2(db, db1, n) || wwCmp(db, aa, n) >= 0)
 				zzSub2(db, aa, n);
@@ -280,7 +280,7 @@ void zzExGCD(word d[], word da[], word db[], const word a[], size_t n,
 			zzSubW2(v + nu, mv - nu, zzSub2(v, u, nu));
 			if (zzAdd2(da1, da, m) || wwCmp(da1, bb, m) >= 0)
 				zzSub2(da1, bb, m);
-			if (zzAdd2(db1, db, n) || wwCmp(db1, aa, n) >= 0)
+			if (zzAdd2(db1, db, n) || wwCmp(db1, aa, n) > 0)
 				zzSub2(db1, aa, n);
 		}
 	} while (!wwIsZero(v, mv));
